@@ -41,6 +41,8 @@ type Scenario struct {
 	Body func(x *vrt.Exec)
 	// Check is evaluated after the execution has ended.
 	Check func(x *vrt.Exec) []Finding
+	// NoCache disables happens-before state caching (pure stateless search).
+	NoCache bool
 	// Outcome summarises the observable outcome (vacuity guard); may be nil.
 	Outcome func(x *vrt.Exec) string
 }
@@ -54,6 +56,7 @@ type Stats struct {
 	CapHit       string         `json:"cap_hit,omitempty"`
 	Outcomes     map[string]int `json:"outcomes"`
 	Horizon      int            `json:"horizon_hits"`
+	Pruned       int            `json:"pruned_subtrees"`
 	MaxPoints    int            `json:"max_points"`
 	Sample       []int          `json:"sample,omitempty"`
 	SampleTrace  []string       `json:"sample_trace,omitempty"`
@@ -84,6 +87,28 @@ type explorer struct {
 	viol     map[string]*Violation
 	deadline time.Time
 	stop     bool
+	visited  map[uint64]struct{}
+	pruned   int
+}
+
+func mix64(a, b uint64) uint64 {
+	h := a ^ (b + 0x9e3779b97f4a7c15 + (a << 6) + (a >> 2))
+	h ^= h >> 33
+	h *= 0xff51afd7ed558ccd
+	h ^= h >> 33
+	return h
+}
+
+// transitionKey identifies "take alternative alt in the happens-before state of point p
+// with the given budgets already spent".
+func transitionKey(p vrt.Point, alt, pre, dev int) uint64 {
+	ak := uint64(alt) + 0xa17
+	if p.Kind == vrt.SchedPoint && alt < len(p.AltKeys) {
+		ak = p.AltKeys[alt]
+	}
+	k := mix64(p.StateKey, ak)
+	k = mix64(k, uint64(p.Kind)+1)
+	return mix64(k, uint64(pre)<<16|uint64(dev))
 }
 
 // RunOnce runs one execution of sc with the given choice prefix.
@@ -201,6 +226,13 @@ func (e *explorer) explore(prefix []int, depth int) {
 			}
 		}
 	}
+	if e.visited != nil {
+		// the default continuation of this run covers these transitions
+		for i := len(prefix); i < len(pts); i++ {
+			pre, dev := costs(pts, i)
+			e.visited[transitionKey(pts[i], pts[i].Chosen, pre, dev)] = struct{}{}
+		}
+	}
 	for i := len(prefix); i < len(pts); i++ {
 		p := pts[i]
 		pre, dev := costs(pts, i)
@@ -213,6 +245,16 @@ func (e *explorer) explore(prefix []int, depth int) {
 			}
 			if np > e.bound || nd > e.sc.DB {
 				continue
+			}
+			if e.visited != nil {
+				// happens-before state caching: an equivalent prefix already took this
+				// transition with the same budgets; its whole subtree has been explored
+				k := transitionKey(p, alt, pre, dev)
+				if _, seen := e.visited[k]; seen {
+					e.pruned++
+					continue
+				}
+				e.visited[k] = struct{}{}
 			}
 			child := make([]int, i+1)
 			for j := 0; j < i; j++ {
@@ -240,7 +282,12 @@ func exploreScenario(sc *Scenario, shard, shards int, deadline time.Time) result
 	}
 	for b := 0; b <= sc.PB; b++ {
 		e.bound = b
+		if !sc.NoCache {
+			e.visited = map[uint64]struct{}{}
+		}
 		e.explore(nil, 0)
+		st.Pruned += e.pruned
+		e.pruned = 0
 		if e.stop {
 			break
 		}
@@ -328,7 +375,7 @@ func Main(run *evid.Run, scenarios []*Scenario, budget time.Duration) {
 					rr.Stats.Outcomes = map[string]int{}
 					rr.Stats.Exhaustive = true
 					rr.Stats.BoundDone = 1 << 30
-					rr.Stats.Execs, rr.Stats.Checked, rr.Stats.Transitions, rr.Stats.Horizon = 0, 0, 0, 0
+					rr.Stats.Execs, rr.Stats.Checked, rr.Stats.Transitions, rr.Stats.Horizon, rr.Stats.Pruned = 0, 0, 0, 0, 0
 					rr.Violations = nil
 					m = &rr
 					merged[r.Scenario] = m
@@ -337,6 +384,7 @@ func Main(run *evid.Run, scenarios []*Scenario, budget time.Duration) {
 				m.Stats.Checked += r.Stats.Checked
 				m.Stats.Transitions += r.Stats.Transitions
 				m.Stats.Horizon += r.Stats.Horizon
+				m.Stats.Pruned += r.Stats.Pruned
 				if r.Stats.BoundDone < m.Stats.BoundDone {
 					m.Stats.BoundDone = r.Stats.BoundDone
 				}
@@ -385,7 +433,7 @@ func Main(run *evid.Run, scenarios []*Scenario, budget time.Duration) {
 			}
 			_ = v
 		}
-		fmt.Printf("  scenario %-44s execs=%-8d checked=%-8d steps=%-9d pb_done=%d outcomes=%d horizon=%d exhaustive=%v\n", n, m.Stats.Execs, m.Stats.Checked, m.Stats.Transitions, m.Stats.BoundDone, len(m.Stats.Outcomes), m.Stats.Horizon, m.Stats.Exhaustive)
+		fmt.Printf("  scenario %-44s execs=%-8d checked=%-8d steps=%-9d pb_done=%d outcomes=%d horizon=%d pruned=%d exhaustive=%v\n", n, m.Stats.Execs, m.Stats.Checked, m.Stats.Transitions, m.Stats.BoundDone, len(m.Stats.Outcomes), m.Stats.Horizon, m.Stats.Pruned, m.Stats.Exhaustive)
 		if len(m.Stats.Sample) > 0 {
 			run.Sample(map[string]any{"scenario": n, "schedule": m.Stats.Sample, "outcomes": m.Stats.Outcomes})
 		}
